@@ -140,6 +140,14 @@ func TestC16(t *testing.T) {
 		switch v.nameShape {
 		case "instance":
 			name = "my/instance/" + base
+		case "instance-ci-uploads":
+			name = "ci-uploads/" + base
+		case "instance-myuploads/main":
+			name = "team/myuploads/main/" + base
+		case "instance-xblobs":
+			name = "xblobs/compressed-blobsy/" + base
+		case "instance-unicode":
+			name = "büro/コード/" + base
 		case "metadata":
 			name = base + "/some/metadata"
 		case "instance+metadata":
@@ -266,6 +274,10 @@ func TestC16(t *testing.T) {
 			if v.nameShape == "instance" || v.nameShape == "instance+metadata" {
 				q = "some/instance/" + q
 			}
+			if strings.HasPrefix(v.nameShape, "instance-") {
+				// the same instance-name shape for the status query
+				q = name[:strings.Index(name, "uploads/0")] + q
+			}
 			complete, sz, code := f.queryWrite(q)
 			if code != codes.OK || complete != fm || (fm && sz != int64(n)) || (!fm && sz != 0) {
 				rep.Violate(key+" QueryWriteStatus disagrees with presence", fmt.Sprintf("%s: QueryWriteStatus -> complete=%v size=%d code=%s", id, complete, sz, code), replay)
@@ -292,7 +304,7 @@ func TestC16(t *testing.T) {
 					}
 				}
 			}
-			for _, ns := range []string{"instance", "metadata", "instance+metadata", "missing-uuid", "garbage", "bad-size"} {
+			for _, ns := range []string{"instance", "instance-ci-uploads", "instance-myuploads/main", "instance-xblobs", "instance-unicode", "metadata", "instance+metadata", "missing-uuid", "garbage", "bad-size"} {
 				variants = append(variants, variant{name: fmt.Sprintf("%s present=%v name=%s", zn, present, ns), zstd: z, present: present, finish: "last", laterName: "omit", nameShape: ns})
 			}
 		}
